@@ -11,6 +11,7 @@ import (
 	"os/exec"
 	"path/filepath"
 	"regexp"
+	"runtime"
 	"runtime/debug"
 	"sort"
 	"strings"
@@ -96,7 +97,6 @@ func loadInProcess(dir string, c LoadCase) loadResult {
 		if r.err == nil || !(strings.Contains(r.err.Error(), "too many open files") || strings.Contains(r.err.Error(), "no space left on device")) {
 			return r
 		}
-		closeLeakedInotify()
 		if attempt >= 8 {
 			// persistent exhaustion caused by something else on the machine: this case is not
 			// judged (the result is marked non-exhaustive), it is never turned into a verdict
@@ -118,25 +118,79 @@ func exhausted(r loadResult) bool {
 // one per configured watcher while building the configuration and has no reference to give back
 // when a later section is rejected (a process that cannot load its configuration exits anyway).
 // Inotify instances are a small per-user resource (128 by default), shared by all shards.
-func closeLeakedInotify() {
+func closeLeakedInotify(before map[int]string) {
 	ents, err := os.ReadDir("/proc/self/fd")
 	if err != nil {
 		return
 	}
+	// Each leaked fsnotify watcher also owns an epoll instance and a wake-up pipe, and its reader
+	// goroutine sits in epoll_wait on an OS thread of its own; over a long unit these threads add up to
+	// the runtime's 10000-thread limit. Only descriptors opened during this load are touched: wake every
+	// reader through its pipe (it then fails on the closed inotify descriptor and parks on a channel,
+	// which costs no thread), then close the lot.
+	var inotify, pipes, epolls []int
 	for _, e := range ents {
+		var fd int
+		fmt.Sscanf(e.Name(), "%d", &fd)
 		l, err := os.Readlink("/proc/self/fd/" + e.Name())
-		if err == nil && strings.Contains(l, "inotify") {
-			var fd int
-			fmt.Sscanf(e.Name(), "%d", &fd)
-			syscall.Close(fd)
+		if err != nil || fd <= 2 || before[fd] == l {
+			continue // (a descriptor number is reused: the listing's own directory handle had one)
 		}
+		switch {
+		case strings.Contains(l, "inotify"):
+			inotify = append(inotify, fd)
+		case strings.HasPrefix(l, "pipe:"):
+			pipes = append(pipes, fd)
+		case strings.Contains(l, "eventpoll"):
+			epolls = append(epolls, fd)
+		}
+	}
+	if len(inotify) == 0 {
+		return
+	}
+	for _, fd := range inotify {
+		syscall.Close(fd)
+	}
+	for _, fd := range pipes {
+		syscall.Write(fd, []byte{0}) // fails harmlessly on a read end
+	}
+	time.Sleep(2 * time.Millisecond)
+	for _, fd := range pipes {
+		syscall.Close(fd)
+	}
+	for _, fd := range epolls {
+		syscall.Close(fd)
 	}
 }
 
+func openDescriptors() map[int]string {
+	m := map[int]string{}
+	ents, _ := os.ReadDir("/proc/self/fd")
+	for _, e := range ents {
+		var fd int
+		fmt.Sscanf(e.Name(), "%d", &fd)
+		if l, err := os.Readlink("/proc/self/fd/" + e.Name()); err == nil {
+			m[fd] = l
+		}
+	}
+	return m
+}
+
 func loadOnce(dir string, c LoadCase) (res loadResult) {
+	before := openDescriptors()
 	defer func() {
 		if res.err != nil || res.panic != "" {
-			closeLeakedInotify()
+			runtime.Gosched() // let the leaked watchers' readers reach their wait before they are woken
+			closeLeakedInotify(before)
+		}
+		if os.Getenv("VERIF_FDDEBUG") != "" {
+			n := 0
+			for fd := range openDescriptors() {
+				if l, _ := os.Readlink(fmt.Sprintf("/proc/self/fd/%d", fd)); strings.Contains(l, "inotify") {
+					n++
+				}
+			}
+			fmt.Fprintf(os.Stderr, "FDDEBUG inotify=%d err=%v panic=%q hang=%v note=%s\n", n, res.err, res.panic, res.hang, c.Note)
 		}
 	}()
 	writeCase(dir, c)
@@ -288,6 +342,10 @@ func (x *ctx) violation(kind, key, desc string, c interface{}, needBin bool) {
 
 func main() {
 	common.Init()
+	// a reader goroutine of a watcher leaked by a failed load can stay in epoll_wait on its own OS thread
+	// (see closeLeakedInotify); the default limit of 10000 threads must not end a long unit
+	debug.SetMaxThreads(60000)
+	exec.Command("true").Run() // makes the runtime create its own poller descriptors before any snapshot is taken
 	logrus.SetOutput(io.Discard)
 	res := common.NewResult("load")
 	root, _ := os.Getwd()
